@@ -34,6 +34,12 @@ Definition escape_keyword (kws : list string) (n : string) : string :=
 
 Definition drop_last2 (s : string) : string := take (String.length s - 2) s.
 
+(* the keywords of Python 3 (keyword.kwlist of 3.7+) *)
+Definition python3_keywords : list string :=
+  ["False"; "None"; "True"; "and"; "as"; "assert"; "async"; "await"; "break"; "class"; "continue"; "def";
+   "del"; "elif"; "else"; "except"; "finally"; "for"; "from"; "global"; "if"; "import"; "in"; "is";
+   "lambda"; "nonlocal"; "not"; "or"; "pass"; "raise"; "return"; "try"; "while"; "with"; "yield"].
+
 Section Gen.
   Variable q : pquirks.
   Variable c : cfg.
@@ -41,6 +47,10 @@ Section Gen.
   Variable doc : option (string -> string -> list string -> string).
 
   Definition ignored (cpp_class : string) : bool := mem_str cpp_class (ignore c).
+
+  (* the keywords that get a trailing underscore *)
+  Definition kws : list string :=
+    if q_keywords_table q then Tables.python_keywords else Tables.python_keywords ++ python3_keywords.
 
   (* _wrap_method for an instance / static method; serializing classes are returned alongside *)
   Definition wrap_method_gen (is_method : bool) (name cpp_method : string) (r : ret) (args : list arg)
@@ -51,7 +61,7 @@ Section Gen.
     else
       let py1 := if mem_str cpp_method Tables.ipython_special_methods
                  then ("_repr_" ++ cpp_method ++ "_")%string else py0 in
-      let py2 := escape_keyword Tables.python_keywords py1 in
+      let py2 := escape_keyword kws py1 in
       let names := arg_names args in
       let d := match doc with Some f => Some (f cpp_class cpp_method names) | None => None end in
       let is_print := String.eqb name "print" in
@@ -132,7 +142,7 @@ Section Gen.
 
   Definition wrap_function (namespaces : list string) (mv : string) (f : ifunc) : bitem :=
     let nsname := drop_last2 (add_namespaces "" namespaces) in
-    BFun mv (escape_keyword (Tables.python_keywords ++ ["print"]) (if_name f))
+    BFun mv (escape_keyword (kws ++ ["print"]) (if_name f))
          (lparams_of (if_args f)) (negb (ret_is_void (if_ret f)))
          (nsname ++ "::")%string (ifunc_cpp f) (arg_names (if_args f)) (pyargs_of (if_args f)).
 
@@ -183,8 +193,11 @@ Section Gen.
       else out_nil
     | IVar v =>
       if inside then
-        out_items [BAttr (module_var c namespaces) (v_name v) (add_namespaces "" namespaces)
-                         (match v_default v with Some d => d | None => v_name v end)]
+        out_items [match v_default v with
+                   | Some d => BAttr (module_var c namespaces) (v_name v)
+                                     (if q_var_default_ns q then add_namespaces "" namespaces else "") d
+                   | None => BAttr (module_var c namespaces) (v_name v) (add_namespaces "" namespaces) (v_name v)
+                   end]
       else out_nil
     | IEnum e => if inside then out_items [BEnum (ns_enum namespaces e)] else out_nil
     | IFun _ => out_nil      (* functions are emitted after the namespace's other elements *)
